@@ -6,12 +6,15 @@ import (
 	"sort"
 	"sync"
 
+	"github.com/gagliardetto/solana-go"
+	"github.com/ipfs/go-cid"
 	"github.com/rpcpool/yellowstone-faithful/gsfa"
 	"github.com/rpcpool/yellowstone-faithful/gsfa/linkedlog"
 	"github.com/rpcpool/yellowstone-faithful/indexes"
 	"github.com/rpcpool/yellowstone-faithful/ipld/ipldbindcode"
 	"github.com/rpcpool/yellowstone-faithful/iplddecoders"
 	"github.com/rpcpool/yellowstone-faithful/slottools"
+	"github.com/rpcpool/yellowstone-faithful/third_party/solana_proto/confirmed_block"
 	"github.com/sourcegraph/jsonrpc2"
 	"k8s.io/klog/v2"
 )
@@ -147,6 +150,7 @@ func (multi *MultiEpoch) handleGetSignaturesForAddress(ctx context.Context, conn
 		return 0
 	}
 
+	addressVerifiedInEpoch := make(map[uint64]bool)
 	// Get the transactions:
 	foundTransactions, err := gsfaMulti.GetBeforeUntil(
 		ctx,
@@ -169,6 +173,14 @@ func (multi *MultiEpoch) handleGetSignaturesForAddress(ctx context.Context, conn
 			decoded, err := iplddecoders.DecodeTransaction(raw)
 			if err != nil {
 				return nil, fmt.Errorf("error while decoding transaction from nodex at offset %d: %w", oas.Offset, err)
+			}
+			if !addressVerifiedInEpoch[epochNum] {
+				// The first transaction an epoch's index yields for this address must involve the
+				// address; if it does not, the index lookup hit another address's list.
+				if mentions, ok := transactionMentionsAccount(decoded, epoch.GetDataFrameByCid, pk); ok && !mentions {
+					return nil, gsfa.ErrAddressMismatch
+				}
+				addressVerifiedInEpoch[epochNum] = true
 			}
 			return decoded, nil
 		},
@@ -283,4 +295,38 @@ func (multi *MultiEpoch) handleGetSignaturesForAddress(ctx context.Context, conn
 	}
 
 	return nil, nil
+}
+
+// transactionMentionsAccount reports whether the account is one of the transaction's static
+// account keys or one of its address-table-loaded accounts. ok is false when the
+// transaction cannot be parsed (then nothing can be said).
+func transactionMentionsAccount(
+	transactionNode *ipldbindcode.Transaction,
+	dataFrameGetter func(ctx context.Context, wantedCid cid.Cid) (*ipldbindcode.DataFrame, error),
+	account solana.PublicKey,
+) (mentions bool, ok bool) {
+	tx, meta, err := parseTransactionAndMetaFromNode(transactionNode, dataFrameGetter)
+	if err != nil {
+		return false, false
+	}
+	for _, key := range tx.Message.AccountKeys {
+		if key == account {
+			return true, true
+		}
+	}
+	if pbMeta, isProtobuf := meta.(*confirmed_block.TransactionStatusMeta); isProtobuf {
+		for _, keys := range [][][]byte{pbMeta.LoadedWritableAddresses, pbMeta.LoadedReadonlyAddresses} {
+			for _, key := range byteSlicesToKeySlice(keys) {
+				if key == account {
+					return true, true
+				}
+			}
+		}
+		return false, true
+	}
+	if len(tx.Message.AddressTableLookups) > 0 {
+		// loaded addresses are unknown without protobuf metadata
+		return false, false
+	}
+	return false, true
 }
